@@ -128,6 +128,9 @@ def build():
     return pep, funcs, x0, x1
 
 
+DIRS_CACHE = {}
+
+
 def call_step(c, funcs, arg, variant):
     from PEPit import primitive_steps as ps
     gamma = scal(c["gn"], c["gd"], variant)
@@ -142,7 +145,11 @@ def call_step(c, funcs, arg, variant):
     if s == "inexact_proximal_step":
         return ps.inexact_proximal_step(arg(c["a"]), f, gamma, opt=o)
     if s == "exact_linesearch_step":
-        return ps.exact_linesearch_step(arg(c["a"]), f, [arg(d) for d in c["dirs"]])
+        # a user keeps ONE list of directions and passes it to every line search: same list object for equal dirs
+        key = tuple(c["dirs"])
+        if key not in DIRS_CACHE:
+            DIRS_CACHE[key] = [arg(d) for d in c["dirs"]]
+        return ps.exact_linesearch_step(arg(c["a"]), f, DIRS_CACHE[key])
     if s == "bregman_gradient_step":
         return ps.bregman_gradient_step(arg(c["b"]), arg(c["a"]), h, gamma)
     if s == "bregman_proximal_step":
@@ -158,6 +165,7 @@ def run(item):
     from PEPit import Point, Expression
     warnings.simplefilter("ignore")
     variant = item.get("variant", 0)
+    DIRS_CACHE.clear()
     pep, funcs, x0, x1 = build()
     last = []
 
